@@ -29,15 +29,15 @@ func (p Pos) String() string { return fmt.Sprintf("%d:%d", p.Line, p.Col) }
 
 // writer accumulates text and tracks the position of the next character.
 type writer struct {
-	b     strings.Builder
-	p     Pos
-	prevC bool // previous character was CR (a following LF belongs to it)
-	sinceCR int // bytes written since the last CR (-1: none yet)
-	label string
-	tape  *tape
-	lt    string // line terminator style: "\n", "\r\n", "\r", "\u2028", "\u2029", "mix"
-	uni   bool   // sprinkle non-ASCII text into comments
-	ind   int
+	b       strings.Builder
+	p       Pos
+	prevC   bool // previous character was CR (a following LF belongs to it)
+	sinceCR int  // bytes written since the last CR (-1: none yet)
+	label   string
+	tape    *tape
+	lt      string // line terminator style: "\n", "\r\n", "\r", "\u2028", "\u2029", "mix"
+	uni     bool   // sprinkle non-ASCII text into comments
+	ind     int
 	// noReturn: `return` is not legal in this text (global code, eval code)
 	noReturn bool
 }
